@@ -13,6 +13,36 @@ P = {
  "C10": ("exhaustive length sweep 0..1100 + powers of ten +-1 + proptest byte strings against an EIP-191 reference (sha3 Keccak, own decimal loop)",
          "Exploration: digest equals the reference for every length 0..1100, all first-byte values, 10^k-1..10^k+1 up to 10^5 (10^7 thorough) and random/non-UTF-8 contents, through all three carriers.",
          "Trusts sha3::Keccak256."),
+ "C02": ("proptest over mnemonics x Unicode passphrase classes against a written-out PBKDF2 reference; hand-written NFKD pair table (788 pairs, independent of unicode-normalization) and layout metamorphism",
+         "Exploration: seed equals PBKDF2-HMAC-SHA512(canonical phrase, 'mnemonic'+NFKD(passphrase)) on every generated (mnemonic, passphrase); every pair of the hand-written NFKD table gives equal seeds equal to the reference over the hand-decomposed bytes; look-alike non-equivalent pairs give different seeds; two layouts give one seed.",
+         "Trusts hmac/sha2; unicode-normalization is used as a primitive for generated passphrases and is cross-checked by the hand-written table."),
+ "C03": ("proptest over (seed, path) against BIP-32 written from the BIP on an independent secp256k1",
+         "Exploration: derived key equals the reference for 20k (500k thorough) generated seeds/paths incl. index extremes, all hardened/normal mixes and depths to 12.",
+         "Reference secp256k1 is cross-checked against k256 in the self-test; BIP-32-invalid steps are unreachable by generation."),
+ "C04": ("proptest + enumerated boundary scalars and all input lengths 0..64 against independent secp256k1/Keccak/EIP-55",
+         "Exploration: public key, address bytes and EIP-55 text equal the reference for boundary and random scalars; out-of-range 32-byte secrets refused; other lengths refused or taken as the same integer.",
+         "Reference secp256k1 cross-checked against k256; sha3 Keccak."),
+ "C05": ("proptest over (key, digest) with range, independent verify/recover, purity, and RFC 6979 reference equality for digests < n",
+         "Exploration: every generated signature is in range, low-s, verifies and recovers to the signer under an independent implementation, is reproducible, and equals the RFC 6979 reference (HMAC-SHA256 DRBG written from the RFC) for digests below n.",
+         "RFC 6979 reference checked against the RFC's A.2.5 nonce vector and the repository's pinned signature."),
+ "C06": ("proptest over transaction records x keys against a reference transaction model, strict canonical RLP decode and sender recovery",
+         "Exploration: kind rule, signing digest and signed bytes equal the reference for every generated record; strict decoder returns every field unchanged; v/yParity formula; recovered sender equals the signer.",
+         "Legacy chain ids are capped at c_max here (C11 covers the rest)."),
+ "C07": ("exhaustive calldata-length / integer-width / list-size sweeps through the public API with a strict canonical RLP decoder; hook sweep of the length-header function over every length below 2^17 (2^25 thorough)",
+         "Exploration with exhaustive parts: every calldata length 0..1100, every single byte, every integer width 0..32 in every field, access-list payloads around each boundary decode strictly to the original; header function equals the reference for every length in the swept range.",
+         "Strict decoder is the canonicity oracle (unit-tested in the harness)."),
+ "C08": ("tape-decoded generation of type graphs + conforming values against an AST-based EIP-712 reference; hook: encodeType string equality and exhaustive member-type grammar sweep",
+         "Exploration: domain separator, message hash and digest equal the reference on every generated document (shared/repeated/diamond/recursive dependencies, 3-dimensional arrays, all 100 atoms); encodeType strings equal; 15600-string grammar sweep is the identity.",
+         "ASCII identifiers only; sha3 Keccak."),
+ "C09": ("mutation of well-typed documents at a generated tree position + exhaustive width x boundary x spelling grid + acceptance controls + CLI sample",
+         "Exploration: every mutated (non-conforming) document is refused without panic; in-range boundary controls are accepted and hash to the reference; grid over 32 widths x {uint,int} x boundaries x spellings is exhaustive; sign/hash typeddata fail with empty stdout on a sample.",
+         "Float literals f64 cannot carry exactly are excluded (known finding under C13)."),
+ "C13": ("proptest over field x spelling (well-formed / malformed / exact-or-refuse literal / unspecified) against the reference encoding and an arbitrary-precision JSON-number oracle",
+         "Exploration: all spellings of an integer give the reference encoding; every malformed spelling is refused; literals are exact or refused (one open known finding: json-float-literal-rounded); byte fields/addresses/storage keys strict.",
+         "Rust's f64 parser is used only inside the known-finding predicate."),
+ "C20": ("exhaustive truth table over domain member lists (326 orderings, 3905 sequences, type substitutions, foreign fields) + generated mixtures",
+         "Exploration with exhaustive core: accepted <=> well-formed per the property for every enumerated domain type; accepted ones hash to the reference domain separator; refusal is independent of the message.",
+         "sha3 Keccak."),
 }
 BUILT = [k for k in sorted(P)]
 
